@@ -225,10 +225,10 @@ Proof.
   intros total hz hm s W. unfold read_circ. apply step_map; auto. apply read_counted_seq_ok; auto.
   intros q s1 _. destruct (circ_ok q); eauto.
 Qed.
-Lemma read_ring_ok : forall total hz hm s, wf total s -> step_ok total s 4 (read_ring hz hm s).
+Lemma read_ring_ok : forall total fx hz hm s, wf total s -> step_ok total s 4 (read_ring fx hz hm s).
 Proof.
-  intros total hz hm s W. unfold read_ring. apply step_map; auto. apply read_counted_seq_ok; auto.
-  intros q s1 _. destruct (ring_ok q); eauto.
+  intros total fx hz hm s W. unfold read_ring. apply step_map; auto. apply read_counted_seq_ok; auto.
+  intros q s1 _. destruct (ring_ok _); eauto.
 Qed.
 
 (* Fuel only when the fuel does not exceed the remaining length *)
@@ -236,25 +236,25 @@ Definition step_or_fuel {A} (R : stats -> stats -> Z -> Prop) (total : Z) (s : r
   match r with Fuel => (fuel <= length (rest s))%nat | _ => step_okR R total s k r end.
 
 (* the holes of a polygon: n rings, at least 4 bytes each *)
-Lemma read_rings_ok : forall fuel total n hz hm s, wf total s ->
-  step_or_fuel flat total s (4 * Z.max 0 n) fuel (read_rings fuel n hz hm s).
+Lemma read_rings_ok : forall fuel total n fx hz hm s, wf total s ->
+  step_or_fuel flat total s (4 * Z.max 0 n) fuel (read_rings fuel n fx hz hm s).
 Proof.
-  induction fuel as [|f IH]; intros total n hz hm s W.
+  induction fuel as [|f IH]; intros total n fx hz hm s W.
   - cbn [read_rings]. destruct (Z.leb_spec n 0) as [N|N]; cbn; [|lia].
     replace (Z.max 0 n) with 0 by lia. split; auto. split; [lia|]. apply flat_refl. lia.
   - cbn [read_rings]. destruct (Z.leb_spec n 0) as [N|N].
     + replace (Z.max 0 n) with 0 by lia. cbn. split; auto. split; [lia|]. apply flat_refl. lia.
-    + pose proof (read_ring_ok total hz hm s W) as R.
-      destruct (read_ring hz hm s) as [q s1|e t|] eqn:E; [| |contradiction].
+    + pose proof (read_ring_ok total fx hz hm s W) as R.
+      destruct (read_ring fx hz hm s) as [q s1|e t|] eqn:E; [| |contradiction].
       2:{ cbn in *. exact R. }
       assert (R' := R). destruct R' as (W1 & K & _).
-      specialize (IH total (n - 1) hz hm s1 W1).
-      destruct (read_rings f (n - 1) hz hm s1) as [l s2|e t|] eqn:E2.
+      specialize (IH total (n - 1) fx hz hm s1 W1).
+      destruct (read_rings f (n - 1) fx hz hm s1) as [l s2|e t|] eqn:E2.
       * unfold step_or_fuel in *. replace (4 * Z.max 0 n) with (4 + 4 * Z.max 0 (n - 1)) by lia.
-        pose proof (step_seq total s 4 (4 * Z.max 0 (n - 1)) (Ok q s1) (fun q s1 => match read_rings f (n - 1) hz hm s1 with Ok l s2 => Ok (q :: l) s2 | Err e t => Err e t | Fuel => Fuel end) W R) as X.
+        pose proof (step_seq total s 4 (4 * Z.max 0 (n - 1)) (Ok q s1) (fun q s1 => match read_rings f (n - 1) fx hz hm s1 with Ok l s2 => Ok (q :: l) s2 | Err e t => Err e t | Fuel => Fuel end) W R) as X.
         cbn beta iota in X. rewrite E2 in X. apply X. intros a s1' Ea W1'. inversion Ea; subst. rewrite E2. exact IH.
       * unfold step_or_fuel in *.
-        pose proof (step_seq total s 4 (4 * Z.max 0 (n - 1)) (Ok q s1) (fun q s1 => match read_rings f (n - 1) hz hm s1 with Ok l s2 => Ok (q :: l) s2 | Err e t => Err e t | Fuel => Fuel end) W R) as X.
+        pose proof (step_seq total s 4 (4 * Z.max 0 (n - 1)) (Ok q s1) (fun q s1 => match read_rings f (n - 1) fx hz hm s1 with Ok l s2 => Ok (q :: l) s2 | Err e t => Err e t | Fuel => Fuel end) W R) as X.
         cbn beta iota in X. rewrite E2 in X. eapply step_weaken. apply X. intros a s1' Ea W1'. inversion Ea; subst. rewrite E2. exact IH. lia.
       * cbn in *. destruct W as (A & B & _). destruct W1 as (A1 & B1 & _). lia.
 Qed.
@@ -269,10 +269,10 @@ Qed.
 Lemma poly_check_err : forall l e, poly_check l = Some e -> err_ok e = true.
 Proof. intros [|sh holes] e; cbn; [discriminate|]. destruct (_ && _); intro H; inversion H; reflexivity. Qed.
 
-Lemma read_polygon_ok : forall fuel total hz hm s, wf total s ->
-  step_or_fuel pflat total s 4 fuel (read_polygon fuel hz hm s).
+Lemma read_polygon_ok : forall fuel total fx hz hm s, wf total s ->
+  step_or_fuel pflat total s 4 fuel (read_polygon fuel fx hz hm s).
 Proof.
-  intros fuel total hz hm s W. unfold read_polygon.
+  intros fuel total fx hz hm s W. unfold read_polygon.
   destruct (read_u32_ok total s W) as (S1 & V1).
   destruct (wf_rem _ _ W) as (R0 & R0').
   destruct (read_u32 s) as [n s1|e t|] eqn:E1; [|apply (@step_ok_p geom total s 4 (Err e t)); auto|contradiction].
@@ -283,8 +283,8 @@ Proof.
   { cbn. split; [reflexivity|]. split; [|lia]. apply flat_pflat; [|lia]. eapply flat_weaken; eauto. lia. }
   destruct (Z.eqb_spec n 0) as [N0|N0].
   { cbn. split; auto. split; [lia|]. apply flat_pflat; [auto|lia]. }
-  pose proof (read_ring_ok total hz hm s1 W1) as S2.
-  destruct (read_ring hz hm s1) as [sh s2|e t|]; [| |contradiction].
+  pose proof (read_ring_ok total fx hz hm s1 W1) as S2.
+  destruct (read_ring fx hz hm s1) as [sh s2|e t|]; [| |contradiction].
   2:{ destruct S2 as (NE & F2 & P2). cbn. split; auto. split; [|auto].
       apply flat_pflat; [|lia]. eapply flat_weaken; [eapply flat_trans; eauto|lia]. }
   destruct S2 as (W2 & K2 & F2). destruct (wf_rem _ _ W2) as (R2 & R2').
@@ -294,8 +294,8 @@ Proof.
                /\ slots (stt s3) = slots (stt s2) + (n - 1) /\ nodes (stt s3) = nodes (stt s2) /\ dmax (stt s3) = dmax (stt s2) /\ quad (stt s3) = quad (stt s2)).
   { unfold s3. destruct (Z.ltb_spec 1 n); proj; repeat split; auto; lia. }
   destruct E3 as (Er & Erm & Eb & Ep & Ec & Es & En & Ed & Eq).
-  pose proof (read_rings_ok fuel total (n - 1) hz hm s3 W3) as S4.
-  destruct (read_rings fuel (n - 1) hz hm s3) as [holes s4|e t|].
+  pose proof (read_rings_ok fuel total (n - 1) fx hz hm s3 W3) as S4.
+  destruct (read_rings fuel (n - 1) fx hz hm s3) as [holes s4|e t|].
   3:{ cbn in *. rewrite Er in S4. destruct W as (A & _). destruct W2 as (A2 & _). lia. }
   2:{ destruct S4 as (NE & F4 & P4). cbn. split; auto. split; [|auto].
       unfold flat, pflat in *. lia. }
@@ -662,8 +662,8 @@ Proof.
     destruct (h_type h =? 2). { apply (LEAF _ 4). apply step_ok_p; auto. apply read_line_ok; auto. }
     destruct (h_type h =? 8). { apply (LEAF _ 4). apply step_ok_p; auto. apply read_circ_ok; auto. }
     destruct (h_type h =? 3).
-    { pose proof (read_polygon_ok f total (h_z h) (h_m h) _ W1n) as X.
-      destruct (read_polygon f (h_z h) (h_m h) (upd add_node s1)) as [g s2|e t2|] eqn:EP; [| |cbn; discriminate].
+    { pose proof (read_polygon_ok f total (fix_rings c) (h_z h) (h_m h) _ W1n) as X.
+      destruct (read_polygon f (fix_rings c) (h_z h) (h_m h) (upd add_node s1)) as [g s2|e t2|] eqn:EP; [| |cbn; discriminate].
       - apply (LEAF (Ok g s2) 4). exact X.
       - apply (LEAF (Err e t2) 4). exact X. }
     destruct (is_container (h_type h)); [|cbn; intro H; inversion H; subst; proj; lia].
